@@ -21,7 +21,20 @@ Theorem C18_write_srt_fault : forall l doc k, write_srt l = Ok doc -> (k < lengt
 Proof. exact write_srt_fault. Qed.
 Theorem C18_write_srt_complete : forall l doc, write_srt l = Ok doc -> write_srt_to l ok_dest = Ok (length doc).
 Proof. exact write_srt_complete. Qed.
+Theorem C18_write_vtt_fault : forall d so ro doc k, write_vtt d so ro = Ok doc -> (k < length doc)%nat ->
+  write_vtt_to d so ro (fail_at k) = Err EIO.
+Proof. exact write_vtt_fault. Qed.
+Theorem C18_write_vtt_complete : forall d so ro doc, write_vtt d so ro = Ok doc -> write_vtt_to d so ro ok_dest = Ok (length doc).
+Proof. exact write_vtt_complete. Qed.
+(* a stream failing after k bytes under any delivery schedule: the readers return an error, not a shorter cue list *)
+Theorem C18_read_fault_at_offset : forall data k counts,
+  (exists e, read_srt_lines (fst (scan_fail data k counts)) (snd (scan_fail data k counts)) = Err e) /\
+  (exists e, read_vtt_lines (fst (scan_fail data k counts)) (snd (scan_fail data k counts)) = Err e).
+Proof. intros data k counts. cbn [scan_fail fst snd]. split; [apply read_srt_fault | apply read_vtt_fault]. Qed.
 
+Print Assumptions C18_write_vtt_fault.
+Print Assumptions C18_write_vtt_complete.
+Print Assumptions C18_read_fault_at_offset.
 Print Assumptions C18_read_srt_fault.
 Print Assumptions C18_writes_fault.
 Print Assumptions C18_writes_complete.
